@@ -104,32 +104,33 @@ func parseListMap(p *parser, bp oper.BP, t *token.Token) ast.Expr {
 		rg := pos.Range(t, rb)
 		return ast.Map([]ast.Pair{}, rg)
 	}
-	return p.any("list or map", parseList(t), parseMap(t))
+	return p.any("list or map", parseListOrMap(t))
 }
 
-func parseList(t *token.Token) func(p *parser) ast.Expr {
+// parseListOrMap 解析完第一个元素之后根据是否跟着 `:` 判断是 list 还是 map.
+// 之前是先按 list 解析失败再回溯按 map 解析, map 嵌套在 key 位置时每层都要解析两遍, 耗时随深度指数增长
+func parseListOrMap(t *token.Token) func(p *parser) ast.Expr {
 	return func(p *parser) ast.Expr {
-		elems := make([]ast.Expr, 0)
-		for {
-			if p.peek().Kind == token.RIGHT_BRACKET {
-				break
-			}
-			el := p.expr(0)
-			elems = append(elems, el)
-			if p.tryEat(token.COMMA) == nil {
-				break
-			}
+		if p.peek().Kind == token.RIGHT_BRACKET {
+			rb := p.eat()
+			return ast.List(make([]ast.Expr, 0), pos.Range(t, rb))
 		}
-		rb := p.mustEat(token.RIGHT_BRACKET)
-		rg := pos.Range(t, rb)
-		return ast.List(elems, rg)
-	}
-}
 
-func parseMap(t *token.Token) func(p *parser) ast.Expr {
-	return func(p *parser) ast.Expr {
-		pairs := make([]ast.Pair, 0)
-		for {
+		fst := p.expr(0)
+		if p.tryEat(token.COLON) == nil {
+			elems := []ast.Expr{fst}
+			for p.tryEat(token.COMMA) != nil {
+				if p.peek().Kind == token.RIGHT_BRACKET {
+					break
+				}
+				elems = append(elems, p.expr(0))
+			}
+			rb := p.mustEat(token.RIGHT_BRACKET)
+			return ast.List(elems, pos.Range(t, rb))
+		}
+
+		pairs := []ast.Pair{{Key: fst, Val: p.expr(0)}}
+		for p.tryEat(token.COMMA) != nil {
 			if p.peek().Kind == token.RIGHT_BRACKET {
 				break
 			}
@@ -137,13 +138,9 @@ func parseMap(t *token.Token) func(p *parser) ast.Expr {
 			p.mustEat(token.COLON)
 			v := p.expr(0)
 			pairs = append(pairs, ast.Pair{Key: k, Val: v})
-			if p.tryEat(token.COMMA) == nil {
-				break
-			}
 		}
 		rb := p.mustEat(token.RIGHT_BRACKET)
-		rg := pos.Range(t, rb)
-		return ast.Map(pairs, rg)
+		return ast.Map(pairs, pos.Range(t, rb))
 	}
 }
 
